@@ -47,6 +47,20 @@ def structured_reduction(rng):
     return prog, programs.Interp(np, False).run(prog)
 
 
+def recompute_then_store(rng):
+    """y is computed once (result discarded), then the SAME lazy object is stored into a target: in-process re-execution and
+    execution from the serialized task must fill the target identically (a handle cached in the process must not outlive the
+    re-targeting done by store)."""
+    import numpy as np
+    r, c = rng.choice([(6, 4), (4, 6), (8, 4)])
+    ch = [rng.choice([2, r]), rng.choice([2, c])]
+    inp = dict(shape=[r, c], chunks=ch, dtype="int64", seed=rng.randint(0, 9), pattern="lin", src="asarray")
+    steps = [dict(op="scalar_add", args=[0], kw=dict(k=3)), dict(op="precompute", args=[1]),
+             dict(op="store_full", args=[2], kw=dict(tchunks=ch))]
+    prog = dict(inputs=[inp], steps=steps, outs=[3], family="recompute-then-store", optimize=rng.random() < 0.5)
+    return prog, programs.Interp(np, False).run(prog)
+
+
 def run(chk):
     chk.rule = ("generated programs + structured DAGs + cubed.random inputs; schedule = shuffled tasks, 30% repeats (now / after "
                 "op end / after downstream ops / at the very end), pickle placement for ~10% of executions in quick; compared "
@@ -58,10 +72,15 @@ def run(chk):
     per = 1 if chk.tier == "quick" else 3
     docs, metas, errors = [], [], []
     tries = 0
+    forced = [(recompute_then_store(rng), pk) for pk in (0.0, 1.0)]
+    n += len(forced)
     while len(docs) < n and tries < n * 3:
         tries += 1
         m = tries % 5
-        if m == 0 and tries % 2 == 0:
+        fpk = None
+        if forced:
+            (prog, nv), fpk = forced.pop(0)
+        elif m == 0 and tries % 2 == 0:
             prog, nv = structured_reduction(rng)
         elif m == 0:
             prog, nv = random_program(rng)
@@ -75,6 +94,8 @@ def run(chk):
             prog, nv = programs.gen_program(rng, max_steps=5)
         for _ in range(per):
             pk = 0.1 if (chk.tier == "thorough" or len(docs) % 6 == 0) else 0.0
+            if fpk is not None:
+                pk = fpk
             r = seqexec.run_adversarial(prog, nv, seed=rng.randint(0, 10 ** 6), order=rng.choice(["shuffle", "shuffle", "rev"]),
                                         repeats=0.3, pickle_p=pk, optimize=prog.get('optimize', rng.random() < 0.6), with_reference=True, recreate=True)
             if r is None:
